@@ -67,7 +67,21 @@ META = {
              "before any output, after k = 0..5 complete frames (frames arriving one by one or at once), in the middle of frame k = 0..2 (CP2K: "
              "also with only one of its two files torn), directly and behind both launcher scripts (the shell turns the signal into status 128+N); "
              "oracle: whenever the stop rule does not fire among the complete frames, propagate must raise - returning a path that neither crossed "
-             "an interface nor reached the length limit is a VIOLATION with the scenario as replay; the model is compared with the signed code."),
+             "an interface nor reached the length limit is a VIOLATION with the scenario as replay; the model is compared with the signed code. "
+             "Quantifier 'timing of the external program's output relative to polling' at BYTE granularity (CP2K, whose two text files are read on "
+             "the fly by engineparts.xyz_reader): the stand-in cp2k flushes <project>-pos-1.xyz and <project>-vel-1.xyz at ARBITRARY byte positions, "
+             "independently for the two files (control key unit = 'bytes'), a poll of the real CP2KEngine.propagate sees the file ending there, the next "
+             "poll sees the same state again (the program pauses longer than the polling interval), then the output is completed and the program ends "
+             "normally: every byte offset of one whole frame for each of the two files in turn (2 atoms; the other file far ahead / one frame ahead / "
+             "torn in the same frame), the file ending inside the LAST NUMBER of the last atom line (1, 2, 5, 8, 12 characters of the line missing, or "
+             "only its newline) of every frame of the run with both files torn at different characters, seeded random byte increments of both files "
+             "(1-3 atoms), the program dying (5 ways) while the last number of a frame is half written, and free-running programs (real sleeps, pause "
+             "10 x the polling interval); thorough tier: every offset of frames 0-3 and systems of 1 and 3 atoms. All coordinates and velocities of "
+             "these scenarios are odd multiples of 1/512 off a quarter: exact in binary, in the 10 decimals CP2K writes and in the 9 decimals of the "
+             "engine's own trajectory file, with significant digits up to the 9th decimal, so a number parsed from a half-written line is a "
+             "different number. Oracle (tolerance 0): the path returned by propagate is, frame by frame, exactly what the program wrote (positions, "
+             "velocities, box), has the length up to the first crossing / the length limit the scripted dynamics implies, reports success iff it "
+             "crossed, and a normally ending program makes propagate neither raise nor leave it running."),
     "note": ("Engines covered by the correspondence: LAMMPS, CP2K, GROMACS (real engine classes against fake lmp/cp2k/gmx executables), ASE, "
              "TurtleMD, plug-in (in-process); AMS is not covered. Engine failures: the fake programs die by exit status or by killing themselves "
              "with SIGKILL / SIGSEGV / SIGTERM (py/plugins/fakemd.py, control key exit_signal; RLIMIT_CORE 0); a death by signal behind a launcher "
@@ -91,7 +105,16 @@ META = {
              "(/proc/<pid>/environ: inherited through the launcher, independent of parent and process group), so a program that outlives "
              "its launcher is found; a survivor is a VIOLATION with the scenario as replay (and, the SIGTERM marker being absent, also a "
              "model/implementation disagreement on the model's PKilled state); survivors are killed by the check. Launchers that exec the "
-             "program or forward signals themselves behave like the direct start and are not generated. Byte-level readers are C13's (a frame is visible or not). The stop rule carried by the model is the current "
+             "program or forward signals themselves behave like the direct start and are not generated. Byte-level readers are C13's (a frame is visible or not): "
+             "PollM has NO reader component, its polling loops take, per poll, the number of "
+             "complete frames in each output file. The CP2K byte-cut family is therefore ORACLE-ONLY at the byte level (no theorem of C12 speaks about "
+             "bytes; that xyz_reader returns exactly the frames wholly inside any byte cut is C13's theorem); the rule 'a line - hence a frame - is "
+             "complete only when it is terminated by a newline' is applied by the harness when it turns the byte positions of a schedule into the frame "
+             "counts handed to the model (c12_harness.frames_in: bytes // frame length, the frame layout of the stand-in restated in the harness and "
+             "cross-checked against the lengths the program reports in <ctl dir>/layout), and with these counts the lock-step with PollM.cp2k_polls "
+             "continues for every byte-cut scenario (hand-shake mode; free-running ones against the schedule-independent spec). GROMACS TRR and LAMMPS "
+             "lammpstrj on-the-fly readers are exercised byte by byte by C13's check and are not duplicated here (their stand-ins keep half-frame units). "
+             "The stop rule carried by the model is the current "
              "one (success kept when the crossing frame is also the maxlen-th, fix d6ed295); the shared EngineM.add_to_path is the older rule and "
              "is linked by C12_contract_old_rule_is_EngineM. Recorded leads are model parameters: fixL2 (LAMMPS pop(0), repaired in /repo), fixL3 "
              "(GROMACS double velocity negation) and fixL14 (GROMACS wait loop never polls the process); the variant /repo exhibits is detected by "
@@ -454,7 +477,148 @@ def gen_external(H, engine, rng, tier, wdroot):
         ml = 120
         finish(c, 2 + i % 2, ml, [[2 * (k + 1)] * nstream for k in range(ml + 1)], mode="async", sleep=0.01, delay=0.05,
                launcher=kind(), watch=True)
+    if engine == "cp2k":
+        gen_bytecut(H, rng, tier, finish, mkbox)
     return cases
+
+
+# --------------------------------------------------------------------------- CP2K: flushes at arbitrary byte positions
+
+
+def bytecut_base(rng, nat, certain=False):
+    """Phase point for the byte-cut scenarios: every coordinate and velocity component is an odd
+    multiple of 1/512 away from a quarter (exact in binary AND in the 10 decimals CP2K writes and the
+    9 decimals the engine's own trajectory file keeps), so that every number of every line has
+    significant digits up to its 9th decimal: a number read while only part of it is on disk is a
+    different number.  Integer time step, so all frames stay on that grid."""
+    def odd(n=64):
+        return (2 * rng.randrange(0, n) + 1) / 512
+    c = base_case("cp2k", rng, nat=nat)
+    c["pos"] = [[x + odd() for x in p] for p in c["pos"]]
+    c["vel"] = [[x + (odd() if d == 0 else odd(8)) for d, x in enumerate(v)] for v in c["vel"]]
+    c["timestep"] = 1.0
+    c["subcycles"] = rng.choice([1, 2])
+    if certain:
+        c["accel"] = [0.0, 0.0, 0.0]        # monotone order parameters: the crossing is certain
+    c["unit"] = "bytes"
+    return c
+
+
+def gen_bytecut(H, rng, tier, finish, mkbox):
+    """The stand-in cp2k flushes <project>-pos-1.xyz and <project>-vel-1.xyz at ARBITRARY byte positions,
+    independently for the two files (control key unit = "bytes"): a poll of the engine sees a file
+    that ends anywhere inside a frame - inside the atom count, the comment line, an atom line, inside
+    the LAST NUMBER of the last atom line, just before the final newline - then sees the same state
+    again (the program pauses longer than the polling interval: hand-shake schedules repeat the
+    entry; free-running cases wait `delay` > `sleep`), then the rest arrives.  Oracle (the common
+    one): the returned path is, frame by frame and exactly (all numbers are exact in the written
+    precision), what the program wrote, with the length / success the dynamics implies."""
+    thorough = tier != "quick"
+    ml = 4
+    nfull = ml + 1
+
+    def orders_for(nat):
+        return [o for o in ORDERS if not (nat < 2 and o["class"] == "Distance")]
+
+    def sweep(nat, stream, f, offs, tag):
+        flen = H.cp2k_frame_len(nat)
+        for off in offs:
+            c = bytecut_base(rng, nat, certain=(off % 3 != 2))
+            c["order"] = orders_for(nat)[off % len(orders_for(nat))]
+            mkbox(c, False, False)
+            cut = f * flen + off
+            other = [nfull * flen, (f + 1) * flen, f * flen + (off * 7) % flen][off % 3]       # far ahead / one frame ahead / torn as well
+            ent = [cut, other] if stream == 0 else [other, cut]
+            sched = [list(ent), list(ent)]                                  # two polls see the file end there
+            if off % 2:
+                nxt = [(f + 1) * flen, max(other, (f + 1) * flen)]             # then exactly that line is completed
+                sched.append(nxt if stream == 0 else nxt[::-1])
+            kc = 3 if off % 5 else None
+            finish(c, kc, ml, sched, reverse=bool(off % 2), vel_rev_in=bool(off % 7 == 0), family=f"bytecut-{tag}")
+
+    flen2 = H.cp2k_frame_len(2)
+    # every byte offset of one frame, each file in turn (2 atoms)
+    sweep(2, 0, 1, range(flen2), "sweep-pos")
+    sweep(2, 1, 2, range(flen2), "sweep-vel")
+    if thorough:
+        for f in (0, 2, 3):
+            sweep(2, 0, f, range(flen2), "sweep-pos")
+        for f in (0, 1, 3):
+            sweep(2, 1, f, range(flen2), "sweep-vel")
+        for nat in (1, 3):
+            for stream in (0, 1):
+                sweep(nat, stream, 1, range(H.cp2k_frame_len(nat)), "sweep-pos" if stream == 0 else "sweep-vel")
+    # the file ends inside the last number of the last line of frame f (1, 5, 8, 12 characters of the line
+    # missing) or just before its newline, for EVERY frame of the run, both files at once at different places
+    for f in range(nfull):
+        for mi, missing in enumerate((1, 2, 5, 8, 12)):
+            for nat in ((2,) if not thorough else (1, 2, 3)):
+                flen = H.cp2k_frame_len(nat)
+                c = bytecut_base(rng, nat, certain=True)
+                c["order"] = orders_for(nat)[(f + mi) % len(orders_for(nat))]
+                mkbox(c, False, False)
+                a = (f + 1) * flen - missing
+                b = (f + 1) * flen - (1, 2, 5, 8, 12)[(mi + 2) % 5]
+                sched = [[f * flen, f * flen]] if f and mi % 2 else []
+                sched += [[a, b], [a, b], [(f + 1) * flen, b], [(f + 1) * flen, (f + 1) * flen]]
+                finish(c, (3 if (f + mi) % 4 else None), ml, sched, reverse=bool(mi % 2), family="bytecut-last-number")
+    # seeded random: both files grow by random byte amounts
+    for i in range(40 if not thorough else 800):
+        nat = rng.choice([1, 2, 2, 3])
+        flen = H.cp2k_frame_len(nat)
+        c = bytecut_base(rng, nat, certain=rng.random() < 0.5)
+        c["order"] = rng.choice(orders_for(nat))
+        mkbox(c, False, False)
+        m = rng.randrange(2, 7)
+        n = m + 1
+        cur, sched = [0, 0], []
+        for _ in range(rng.randrange(1, 7)):
+            for st in (0, 1):
+                step = rng.choice([0, rng.randrange(1, flen), flen, flen + rng.randrange(1, flen), 2 * flen,
+                                   ((cur[st] // flen) + 1) * flen - cur[st] - rng.randrange(1, 14)])     # ... or up to the last number
+                cur[st] = min(n * flen, cur[st] + max(0, step))
+            sched.append(list(cur))
+        finish(c, rng.choice([None, 1, 2, 3, 4]), m, sched, reverse=rng.random() < 0.4, vel_rev_in=rng.random() < 0.2,
+               family="bytecut-random")
+    # the program DIES (each way) while the last number of frame k is half written: the torn frame stays
+    for di, (_dname, death) in enumerate(DEATHS):
+        for k in ((1, 2) if not thorough else (0, 1, 2, 3)):
+            flen = flen2
+            c = bytecut_base(rng, 2, certain=True)
+            c["order"] = ORDERS[di % 3]
+            mkbox(c, False, False)
+            a = (k + 1) * flen - (3, 7, 1, 9, 5)[di]
+            tail = [[a, a], [a, (k + 1) * flen], [(k + 1) * flen, a]][(di + k) % 3]
+            finish(c, (None if (di + k) % 2 else 1), ml, [[k * flen, k * flen], tail], write_rest=False,
+                   family="bytecut-death", **death)
+    # free-running program, real sleeps: it flushes inside the last number, pauses for several polling
+    # intervals of the engine (delay >> sleep), completes the line, goes on
+    for i in range(6 if not thorough else 30):
+        flen = flen2
+        c = bytecut_base(rng, 2, certain=True)
+        c["order"] = ORDERS[0] if i % 2 else ORDERS[2]
+        mkbox(c, False, False)
+        f = 1 + i % 3
+        a = (f + 1) * flen - rng.choice([1, 3, 6, 9])
+        full = (ml + 3) * flen
+        ent = [[a, full], [full, a], [a, a - 2]][i % 3]
+        sched = [[f * flen, f * flen], ent, [max(ent[0], (f + 1) * flen), max(ent[1], (f + 1) * flen)]]
+        finish(c, 3, ml + 2, sched, mode="async", sleep=0.004, delay=0.04, family="bytecut-async")
+
+
+def bytecut_text(H, case):
+    """Where the flushes of a byte-unit schedule fall (for messages and the input distribution)."""
+    nat = len(case["pos"])
+    flen = H.cp2k_frame_len(nat)
+    seen, out = set(), []
+    for e in case.get("schedule") or []:
+        for name, amount in zip(("pos", "vel"), e):
+            k, off = divmod(int(amount), flen)
+            w = H.cp2k_where(nat, off)
+            if w != "frame-boundary" and (name, amount) not in seen:
+                seen.add((name, amount))
+                out.append((name, k, off, w))
+    return flen, out
 
 
 # optional entries of the start configuration's file format, per engine (see gen_external / gen_inproc)
@@ -801,7 +965,7 @@ def _run(ctx, runner, H, I, sysharness, rng, wdroot):
         "/bin/sh for the launcher scripts (run_<engine>_fg.sh / _bg.sh written per case); /proc/<pid>/environ to find every process of a propagation",
     ]
     ctx.assumptions += [
-        "the fake programs write complete frames in the real formats and flush only at schedule points; real programs may differ in buffering (byte-level tearing is C13's property)",
+        "the fake programs write the real formats and flush only at schedule points (whole or half frames; the stand-in cp2k also at arbitrary byte positions, scenarios cp2k:family=bytecut-*); LAMMPS/GROMACS byte-level tearing is C13's property",
         "a death by signal is produced by the fake program signalling itself; a signal delivered while the real program holds a partially flushed buffer may leave other byte-level remains (C13's property)",
         "time reversibility is a property of the dynamics (hypothesis of C12_backward_retraces_*): checked for free flight (fake programs) and harmonic velocity Verlet (ASE), not for TurtleMD (Langevin)",
     ]
@@ -822,8 +986,16 @@ def evaluate(ctx, runner, H, I, cases, results):
             ctx.dist(f"{eng}:command={'launcher-' + case['launcher'] if case.get('launcher') else 'program'}")
             if H.return_code(case) != 0:
                 ctx.dist(f"{eng}:death={death_label(case)}@{death_stage(case)}")
+        if case.get("unit") == "bytes":
+            ctx.dist(f"{eng}:family={case.get('family')}")
+            for name, _k, _off, w in bytecut_text(H, case)[1]:
+                ctx.dist(f"{eng}:{name}-file-seen-ending={w}")
         if tag != "ok":
             ctx.violation(f"harness failure running a {eng} case: {str(res)[:300]}", {"case": case, "error": str(res)[-2000:]}, False)
+            continue
+        if case.get("unit") == "bytes" and res["main"].get("layout_ok") is False:
+            ctx.violation(f"harness: the stand-in cp2k wrote frames of {res['main'].get('layout')} bytes, the check places its flushes "
+                          f"assuming {H.cp2k_frame_len(len(case['pos']))}", {"case": case}, False)
             continue
         if eng in H.EXTERNAL:
             mi = H.model_inputs(case, H.make_order(case["order"]))
@@ -851,6 +1023,12 @@ def evaluate(ctx, runner, H, I, cases, results):
         lst.sort(key=lambda t: (0 if t[2].get("main", {}).get("still_writing") else 1,      # a surviving program caught writing first
                                 len(t[0].get("schedule", []) or []), t[0]["maxlen"], len(t[0].get("pos", [])), t[0]["subcycles"]))
         case, msg, res = lst[0]
+        if case.get("unit") == "bytes":
+            flen, cuts = bytecut_text(H, case)
+            msg += (f"  — output timing: the program flushed its output files at the byte positions {case['schedule']} (pos, vel; one entry per "
+                    f"polling interval, frames of {flen} bytes), so polls saw "
+                    + "; ".join(f"the {n} file ending {w} of frame {k} (byte {off} of the frame)" for n, k, off, w in cuts[:4])
+                    + ", before the program completed its output and " + ("exited with code 0" if H.return_code(case) == 0 else death_text(H, case)))
         ctx.violation(f"C12 statement fails on the implementation ({eng}): {msg}  [{len(lst)} generated cases fail this way]",
                       {"case": case, "observed": slim(res), "oracle": msg}, True)
     known = common.load_findings().get("known", [])
